@@ -3,6 +3,7 @@ import PdbVerif.Driver.Json
 import PdbVerif.Driver.SpecF
 import PdbVerif.Model.Effects
 import PdbVerif.Model.Store
+import PdbVerif.Driver.ExtFx
 
 namespace Driver.ModelF
 open Lean Driver Driver.SpecF
@@ -181,6 +182,6 @@ def op (name : String) (j : Json) : Except String (Option Json) := do
   if name == "store_scenario" then return some (← storeOp j)
   match routineOf name (optBool j "check" true) with
   | some r => return some (← effectsOp r j)
-  | none => pure none
+  | none => ExtFx.op name j
 
 end Driver.ModelF
